@@ -34,9 +34,9 @@ func init() {
 			return 90000
 		}}, {Name: "far_vertex", NumCases: func(t string) int {
 			if t == "thorough" {
-				return 300000
+				return 600000
 			}
-			return 12000
+			return 48000
 		}}},
 		Run:   run,
 		Setup: func(c *core.Ctx) { geom.VerifSimplifyHook = hook },
